@@ -123,3 +123,72 @@ Print Assumptions C12g_portable_wide_unop_lanewise.
 Print Assumptions C12g_portable_wide_lane_shuffle_is_perm.
 Print Assumptions C12g_portable_wide_swapN_is_bitgroup_swap.
 Print Assumptions C12g_portable_total.
+
+(* ---- added by work package ppv-wide: assign macros (audit F2), shuffle names (audit F3) ---- *)
+From CC Require Import Model.PpvSoftAssign Proofs.PpvWideAssign Proofs.PpvWideShuffle.
+
+(** soft.rs [fwd_binop_assign_x2!] / [fwd_binop_assign_x4!] ([&=], [|=], [^=], [+=] of x2 / x4;
+    Model/PpvSoftAssign.v: statement by statement, in the order of the source): for ANY element
+    type [W] and ANY element assign method [fa] they leave in [self] the array the by-value macro
+    builds and panic exactly when it does; with the crate's element assign [*self = self.f(rhs)]
+    ([elem_assign f]) they are the by-value form of [f] *)
+Theorem C12g_assign_is_binop : forall (W : Type) (d : W),
+  (forall fa self rhs, length self = 2%nat -> x2_binop_assign d fa self rhs = x2_binop d fa self rhs) /\
+  (forall fa self rhs, length self = 4%nat -> x4_binop_assign d fa self rhs = x4_binop d fa self rhs) /\
+  (forall (f : W -> W -> outcome W) s r, elem_assign f s r = f s r) /\
+  (forall f self rhs, length self = 2%nat -> x2_binop_assign d (elem_assign f) self rhs = x2_binop d f self rhs) /\
+  (forall f self rhs, length self = 4%nat -> x4_binop_assign d (elem_assign f) self rhs = x4_binop d f self rhs).
+Proof.
+  exact (fun W d => conj (x2_assign_is_binop d) (conj (x4_assign_is_binop d)
+           (conj (@elem_assign_is_binop W) (conj (x2_assign_elem d) (x4_assign_elem d))))).
+Qed.
+Theorem C12g_assign_forwards : forall (W : Type) (d : W) (P : W -> Prop),
+  (forall f g a b, (forall x y, P x -> P y -> f x y = Ok (g x y)) ->
+                   length a = 2%nat -> length b = 2%nat -> Forall P a -> Forall P b ->
+                   x2_binop_assign d (elem_assign f) a b = Ok (map2 g a b)) /\
+  (forall f g a b, (forall x y, P x -> P y -> f x y = Ok (g x y)) ->
+                   length a = 4%nat -> length b = 4%nat -> Forall P a -> Forall P b ->
+                   x4_binop_assign d (elem_assign f) a b = Ok (map2 g a b)).
+Proof. exact (fun W d P => conj (x2_assign_forwards d P) (x4_assign_forwards d P)). Qed.
+(** portable back end, both profiles: lane-wise meaning of [+=], [^=], [|=], [&=] on the wide types *)
+Theorem C12g_portable_wide_assign_lanewise : forall p t o a b, In o [OAdd; OXor; OOr; OAnd] ->
+  (wide t 2 a -> wide t 2 b ->
+     exists r, x2_binop_assign [] (elem_assign (g_binop p t o)) a b = Ok r /\
+               concat r = spec_bin (vt_w t) o (concat a) (concat b)) /\
+  (wide t 4 a -> wide t 4 b ->
+     exists r, x4_binop_assign [] (elem_assign (g_binop p t o)) a b = Ok r /\
+               concat r = spec_bin (vt_w t) o (concat a) (concat b)).
+Proof. exact portable_wide_assign_lanewise. Qed.
+
+(** Words4 / LaneWords4 of u32x4_generic over the three method names only (restates
+    C12g_portable_u32x4_shuffle_is_perm, whose [k] is unrestricted because both sides send every
+    other [k] to the 3012 form), and directly over the model's methods *)
+Theorem C12g_portable_u32x4_shuffle_named : forall p k v, In k [1230; 2301; 3012] -> wfv U32x4 v ->
+  g32_lane_shuffle p k v = Ok (spec_shuffle k v) /\
+  (k = 1230 -> spec_shuffle k v = Lanes.shuffle1230 v) /\
+  (k = 2301 -> spec_shuffle k v = Lanes.shuffle2301 v) /\
+  (k = 3012 -> spec_shuffle k v = Lanes.shuffle3012 v).
+Proof. exact g32_lane_shuffle_named. Qed.
+Theorem C12g_portable_u32x4_shuffles_are_perms : forall p v, wfv U32x4 v ->
+  g32_shuffle_lane_words1230 v = Lanes.shuffle1230 v /\
+  g32_shuffle_lane_words2301 p v = Ok (Lanes.shuffle2301 v) /\
+  g32_shuffle_lane_words3012 v = Lanes.shuffle3012 v /\
+  g32_shuffle1230 v = Lanes.shuffle1230 v /\
+  g32_shuffle2301 p v = Ok (Lanes.shuffle2301 v) /\
+  g32_shuffle3012 v = Lanes.shuffle3012 v.
+Proof. exact g32_shuffles_are_perms. Qed.
+Theorem C12g_portable_wide_lane_shuffle_named : forall p n k v,
+  (n = 2 \/ n = 4)%nat -> In k [1230; 2301; 3012] -> wide U32x4 n v ->
+  exists r, xn_unop' n (g32_lane_shuffle p k) v = Ok r /\
+            concat r = Lanes.per_lane4 (spec_shuffle k) (concat v) /\
+            (k = 1230 -> concat r = Lanes.per_lane4 (@Lanes.shuffle1230 N) (concat v)) /\
+            (k = 2301 -> concat r = Lanes.per_lane4 (@Lanes.shuffle2301 N) (concat v)) /\
+            (k = 3012 -> concat r = Lanes.per_lane4 (@Lanes.shuffle3012 N) (concat v)).
+Proof. exact wide_lane_shuffle_named. Qed.
+
+Print Assumptions C12g_assign_is_binop.
+Print Assumptions C12g_assign_forwards.
+Print Assumptions C12g_portable_wide_assign_lanewise.
+Print Assumptions C12g_portable_u32x4_shuffle_named.
+Print Assumptions C12g_portable_u32x4_shuffles_are_perms.
+Print Assumptions C12g_portable_wide_lane_shuffle_named.
